@@ -365,6 +365,8 @@ def check(ctx):
     n, flags = check_flag_discipline(ctx, TEN, "R09.3")
     ctx.notes.append("flag-daggered classes: %s" % sorted(k.q for k in flags))
     check_eval_and_spider(ctx)
+    ctx.rule("R09.5", "the operations the evaluation is built from (then, tensor, dagger, swap, cups, caps of Tensor) have the matrix layout they claim (C08)")
+    ctx.depend("R09.5", "C08", "evaluation composes the images with Tensor.then / tensor / swap / cups / dagger: each must contract and order the axes as a matrix product / Kronecker product", mod="discopy.tensor")
     ctx.floor("R09.1", 6)
     ctx.floor("R09.2", 14)
     ctx.floor("R09.3", 10)
